@@ -39,6 +39,8 @@ def _worker_env(scratch):
 
 
 def _run_worker(prop, shard, scratch, idx, timeout):
+    wenv = _worker_env(scratch)
+    wenv.update(shard.get('env') or {})
     sp = os.path.join(scratch, 'shard%d.json' % idx)
     op = os.path.join(scratch, 'out%d.json' % idx)
     with open(sp, 'w') as f:
@@ -47,7 +49,7 @@ def _run_worker(prop, shard, scratch, idx, timeout):
     try:
         p = subprocess.run(
             [sys.executable, '-m', 'vmon.worker', prop, sp, op],
-            cwd=env.VERIF, env=_worker_env(scratch), timeout=timeout,
+            cwd=env.VERIF, env=wenv, timeout=timeout,
             stdout=subprocess.PIPE, stderr=subprocess.STDOUT)
         rc, out = p.returncode, p.stdout.decode('utf-8', 'replace')[-3000:]
     except subprocess.TimeoutExpired as e:
@@ -142,6 +144,8 @@ def _main(mod, prop, tier, seed, jobs, replay, scratch, t0):
                                 % (shard.get('name'), why[:200]))
     for h in harness_errors:
         inconclusive.append('harness error: ' + h[-600:])
+    if not replay and hasattr(mod, 'finalize'):
+        mod.finalize(m, tier)
     if not replay:
         try:
             inconclusive.extend(mod.gates(m, tier))
